@@ -1414,6 +1414,94 @@ func marshalStress(o *hx.Out) {
 	}
 }
 
+// the keep-alive component as a sequential machine: the handlers the Run goroutine calls, applied in the order of an
+// event history (also histories OUTSIDE the protocol that the public API allows), compared with the model
+type kaModelClient struct {
+	id   int
+	sent *[]string
+	disc *[]string
+}
+
+func (c *kaModelClient) SendKeepAlive(id int64) { *c.sent = append(*c.sent, fmt.Sprintf("%d:%d", c.id, id)) }
+func (c *kaModelClient) SendDisconnect(chat.Message) {
+	*c.disc = append(*c.disc, strconv.Itoa(c.id))
+}
+
+func keepAliveModelCases(o *hx.Out) {
+	run := func(cat string, evs []string) {
+		k := server.NewKeepAlive()
+		var sent, disc []string
+		clients := map[int]*kaModelClient{}
+		get := func(id int) *kaModelClient {
+			if clients[id] == nil {
+				clients[id] = &kaModelClient{id: id, sent: &sent, disc: &disc}
+			}
+			return clients[id]
+		}
+		panics := 0
+		for _, e := range evs {
+			var c server.KeepAliveClient
+			if len(e) > 1 {
+				id, _ := strconv.Atoi(e[1:])
+				c = get(id)
+			}
+			if server.VerifKeepAliveApply(k, e[0], c) {
+				panics++
+			}
+		}
+		idx, _, _ := server.VerifKeepAliveSizes(k)
+		ping, wait := server.VerifKeepAliveLists(k)
+		names := func(l []server.KeepAliveClient) string {
+			if len(l) == 0 {
+				return "-"
+			}
+			var s []string
+			for _, c := range l {
+				s = append(s, strconv.Itoa(c.(*kaModelClient).id))
+			}
+			return strings.Join(s, ",")
+		}
+		join := func(l []string) string {
+			if len(l) == 0 {
+				return "-"
+			}
+			return strings.Join(l, ",")
+		}
+		line := "ka " + strings.Join(evs, " ")
+		o.Case(cat, len(evs) > 2, line, fmt.Sprintf("%s = index:%d ping:%s wait:%s kicked:%s panics:%d sent:%s", line, idx, names(ping), names(wait), join(disc), panics, join(sent)))
+	}
+	// the three histories outside the protocol (Proofs/C20_keepalive.v: ka_*_refuted) and protocol-following ones
+	run("ka-fixed", strings.Fields("j1 t1"))
+	run("ka-fixed", strings.Fields("j1 t1 t1 t1 p p"))
+	run("ka-fixed", strings.Fields("j1 l1 l1"))
+	run("ka-fixed", strings.Fields("l7"))
+	run("ka-fixed", strings.Fields("t7"))
+	run("ka-fixed", strings.Fields("j1 p k t1"))
+	run("ka-fixed", strings.Fields("j1 p k"))
+	run("ka-fixed", strings.Fields("j1 p k l1 l1"))
+	run("ka-fixed", strings.Fields("j1 j1 p p l1"))
+	run("ka-fixed", strings.Fields("j1 j2 p t1 p p k l2 l1 j2"))
+	for i, N := 0, o.N(400, 10); i < N; i++ {
+		var evs []string
+		for j, m := 0, 1+o.R.Intn(16); j < m; j++ {
+			c := 1 + o.R.Intn(4)
+			switch x := o.R.Intn(12); {
+			case x < 3:
+				evs = append(evs, fmt.Sprintf("j%d", c))
+			case x < 5:
+				evs = append(evs, fmt.Sprintf("l%d", c))
+			case x < 8:
+				evs = append(evs, fmt.Sprintf("t%d", c))
+			case x < 11:
+				evs = append(evs, "p")
+			default:
+				evs = append(evs, "k")
+			}
+		}
+		run("ka-random", evs)
+	}
+}
+
 // the lazily created key of the login handler: double-checked locking on an atomic pointer
 func loginKeyStress(o *hx.Out) {
 	for round := 0; round < 2; round++ {
@@ -1464,6 +1552,7 @@ func main() {
 	nbtStress(o)
 	connStress(o)
 	playerListStress(o)
+	keepAliveModelCases(o)
 	keepAliveStress(o)
 	loginKeyStress(o)
 	marshalStress(o)
